@@ -103,6 +103,17 @@ def sobsToJson : SObs → Except String Json
     else if e.name == "OutOfFuel" then throw "out of fuel"
     else pure (Json.mkObj [("failed", e.toJson)])
 
+/-- One step of a `ctxsession` request: {op: put, path, doc} | {op: write|fetch, format, input}. -/
+def copOfJson (j : Json) : Except String (COp Val) := do
+  match ← (← j.getObjVal? "op").getStr? with
+  | "put" =>
+    let d ← Val.ofJson (← j.getObjVal? "doc")
+    if !isDoc d then throw "not a document tree"
+    pure (.put (← (← j.getObjVal? "path").getStr?) d)
+  | "write" => pure (.write (← formatOf j) (← Val.ofJson (← j.getObjVal? "input")))
+  | "fetch" => pure (.fetch (← formatOf j) (← Val.ofJson (← j.getObjVal? "input")))
+  | s => throw s!"unknown ctxsession op {s}"
+
 /-- `config.default_encoding` on the wire: absent or null = not set (`none`), else a string. -/
 def dfltOf (j : Json) (k : String) : Except String (Option String) :=
   match j.getObjVal? k with
@@ -136,6 +147,9 @@ def errObs (e : Exc) : Except String Json :=
                  where given — a string, or null for an explicit `None`). `dflt` = `config.default_encoding` while the
                  write step runs (absent/null = not set), `dfltFetch` = while the fetch step runs (absent = `dflt`).
                  → {"write": {"err": exc}} | {"write": {"ok": [[path, doc]], "enc": name}, "fetch": {"ok": ctx} | {"err": exc}}
+    `ctxsession` {ctx, ops}                 → `runC`: steps on ONE context ({op: put, path, doc} = a file placed on disk,
+                 {op: write|fetch, format, input} = the step with `in: {fileWriteX|fetchX: input}`), ideal codecs:
+                 {"obs": [{"ok": ctx} | {"err": exc}, ...]} — the context after every step, up to the first that raises
     `parser`     {format, doc}              → value level: the parser's top-level check on a file holding doc
                  {format, ctx, args, dflt?, dfltParse?}
                  FILE level: `fileWriteStored` (input in `ctx`, config default `dflt`) into an empty file system, then
@@ -216,6 +230,14 @@ def handle (op : String) (j : Json) : Except String Json := do
     let obs ← r.2.mapM sobsToJson
     pure (Json.mkObj [("obs", Json.arr obs.toArray),
       ("files", Json.arr (r.1.map fun (p, v) => Json.arr #[Json.str p, v.toJson]).toArray)])
+  | "ctxsession" =>
+    let ctx ← Ctx.ofJson (← j.getObjVal? "ctx")
+    let ops ← (← (← j.getObjVal? "ops").getArr?).toList.mapM copOfJson
+    let obs ← (runC idealFor (fuelOf j) ctx [] ops).mapM fun r =>
+      match r with
+      | .ok cx => pure (Json.mkObj [("ok", Ctx.toJson cx)])
+      | .error e => errObs e
+    pure (Json.mkObj [("obs", Json.arr obs.toArray)])
   | "parser" =>
     let f ← formatOf j
     match j.getObjVal? "doc" with
